@@ -113,18 +113,25 @@ func zzSpecAccept(cfg *zzCfg, hasDot bool, k, s string) bool {
 
 // zzConfig chooses the secret configuration: global secret of one of the five lengths,
 // 0..2 rotated secrets; "alias" makes the first rotated secret share its first 32 bytes with the global one.
-// quick: hash function default, rotated lengths {31,32,40} for the first and 32 for the second rotated secret;
-// thorough (full): three hash functions, all five lengths for every secret.
-func zzConfig(full bool) *zzCfg {
+// level 0 (small): global of the five lengths, at most one rotated secret of 31 or 32 bytes;
+// level 1 (quick): rotated lengths {31,32,40} for the first and 32 for the second rotated secret, alias;
+// level 2 (thorough): three hash functions, all five lengths for every secret, alias.
+func zzConfig(level int) *zzCfg {
 	cfg := &zzCfg{}
-	if full {
+	if level >= 2 {
 		cfg.hasher = zzHasherChoice()
 	}
 	cfg.global = zzKey(0, zzKeyLens[zz.Choice("globalLen", len(zzKeyLens))])
+	if level == 0 {
+		if r := zz.Choice("rot", 3); r > 0 {
+			cfg.rotated = append(cfg.rotated, zzKey(1, 30+r))
+		}
+		return cfg
+	}
 	nrot := zz.Choice("nrot", 3)
 	for i := 0; i < nrot; i++ {
 		l := 32
-		if full {
+		if level >= 2 {
 			l = zzKeyLens[zz.Choice("rotLen", len(zzKeyLens))]
 		} else if i == 0 {
 			l = []int{31, 32, 40}[zz.Choice("rotLen", 3)]
@@ -138,6 +145,13 @@ func zzConfig(full bool) *zzCfg {
 	return cfg
 }
 
+func zzLevel() int {
+	if zz.Thorough() {
+		return 2
+	}
+	return 1
+}
+
 func zzSegLen() int {
 	if zz.Thorough() {
 		return 23
@@ -147,7 +161,7 @@ func zzSegLen() int {
 
 // ZZ_C06_hmac_validate_free: T is any string with at most 3 (4) dots.
 func ZZ_C06_hmac_validate_free() {
-	cfg := zzConfig(zz.Thorough())
+	cfg := zzConfig(zzLevel() - 1)
 	maxSeg := 4
 	if zz.Thorough() {
 		maxSeg = 5
@@ -200,7 +214,12 @@ func ZZ_C06_hmac_validate_free() {
 
 // ZZ_C06_hmac_validate_minted: K symbolic, signature computed under a chosen key.
 func ZZ_C06_hmac_validate_minted() {
-	cfg := zzConfig(zz.Thorough())
+	variant := zz.Choice("variant", 5)
+	lvl := zzLevel()
+	if variant != 0 {
+		lvl-- // the tampered variants do not depend on the key order
+	}
+	cfg := zzConfig(lvl)
 	keys := zzExamined(cfg)
 	L := 2 * zzSegLen()
 	K := zz.StringEx("k", L, ".")
@@ -233,7 +252,7 @@ func ZZ_C06_hmac_validate_minted() {
 
 	strat := &HMACStrategy{Config: cfg}
 	ctx := context.Background()
-	switch zz.Choice("variant", 5) {
+	switch variant {
 	case 0: // untampered
 		T := K + "." + S
 		err := strat.Validate(ctx, T)
